@@ -1790,6 +1790,7 @@ fn nontrivial(run: &Run) -> bool {
 fn main() {
     let a = parse_args();
     let mut res = RunResult::new("C09", &a);
+    let t_phase = std::time::Instant::now();
     res.rule = "case = op list (messages, other frames, manual checkpoints at message ids / seqs / strides incl. non-boundaries, cut_points, status, auto, schedule, blob deletion) over stride in {0,1,2,3,7,10000,2^40,2^63,default}, limit in {default,0,1,2,3,32,33,1000}, max_new in {default,0,1,2,3,32,33}, optional booleans; non-trivial = at least one checkpoint created and one cut point returned; distinct by hash of the op list".into();
     let n = if a.thorough() { 6000 } else { 320 };
     let mut r = Rng::new(a.seed);
@@ -1865,6 +1866,8 @@ fn main() {
             }
         }
     }
+    let t_seq = t_phase.elapsed();
+    let t_phase = std::time::Instant::now();
     // concurrent schedule / auto calls under the controlled scheduler
     let n_conc = if a.thorough() { 600 } else { 50 };
     let mut wc = CaseWriter::new(&a.out.join("conc"), "Model.Compaction", "check_ccase", "model_cobs", 25).with_base(1_000_000);
@@ -1932,6 +1935,8 @@ fn main() {
         }
     }
     wc.flush();
+    let t_conc = t_phase.elapsed();
+    let t_phase = std::time::Instant::now();
     for schedule in [false, true] {
         let got = std::panic::catch_unwind(move || io_failure_scenario(schedule));
         res.evaluations += 1;
@@ -1989,6 +1994,9 @@ fn main() {
         }
     }
     w.flush();
+    res.bump_by("phase_ms_sequential", t_seq.as_millis() as u64);
+    res.bump_by("phase_ms_concurrent", t_conc.as_millis() as u64);
+    res.bump_by("phase_ms_scenarios", t_phase.elapsed().as_millis() as u64);
     if res.samples.is_empty() {
         res.samples.push(case_json(&all[0]));
     }
